@@ -22,7 +22,7 @@ Proof.
   - rewrite Eq. split; [exact Hd|]. split; [apply Rgt_not_eq; exact Hs|exact I].
   - replace (1 + - (wgs84_e2 * (sin p * (sin p * 1)))) with (1 - wgs84_e2 * sin p ^ 2) by ring.
     set (s := sqrt (1 - wgs84_e2 * sin p ^ 2)) in *.
-    clearbody s. clear Eq Hd. field. lra.
+    field. lra.
 Qed.
 
 Lemma NcSin_is_derive (p : R) : is_derive NcSin p (dNcSin p).
@@ -30,8 +30,8 @@ Proof.
   unfold NcSin, dNcSin.
   pose proof (Nc_is_derive p) as H.
   auto_derive.
-  - split; [exists (dNc p); exact H|exact I].
-  - rewrite (is_derive_unique _ _ _ H). ring.
+  - exists (dNc p). exact H.
+  - change (fun x : R => Nc x) with Nc. rewrite (is_derive_unique _ _ _ H). ring.
 Qed.
 
 Lemma dNc_bound c : Rabs (dNc c) <= 7 / 1000.
@@ -135,3 +135,179 @@ Section OneExit.
     nra.
   Qed.
 End OneExit.
+
+(* ---------- tie to the generated paths ---------- *)
+Definition rr (x y : R) : R := sqrt ((x / (1275627 / 200)) ^ 2 + (y / (1275627 / 200)) ^ 2).
+
+Lemma rr_scaled x y : rr x y = sqrt (x * x + y * y) / XKMPER.
+Proof.
+  unfold rr, XKMPER.
+  replace ((x / (1275627 / 200)) ^ 2 + (y / (1275627 / 200)) ^ 2)
+    with ((x * x + y * y) * ((200 / 1275627) * (200 / 1275627))) by field.
+  rewrite sqrt_mult_alt by nra.
+  rewrite sqrt_square by lra. field.
+Qed.
+
+Lemma rr_pos x y : 0 < x * x + y * y -> 0 < rr x y.
+Proof.
+  intros H. rewrite rr_scaled. apply Rdiv_lt_0_compat; [apply sqrt_lt_R0; exact H|unfold XKMPER; lra].
+Qed.
+
+Ltac it_step_tac a b :=
+  unfold a, lat_step, Nc, rr; cbv zeta; rewrite e2_const'; reflexivity.
+
+Lemma it_step_1 x y z d : gen_lla_lat_it1 x y z d = lat_step (rr x y) (z / (1275627 / 200)) (gen_lla_lat_it0 x y z d).
+Proof. it_step_tac gen_lla_lat_it1 gen_lla_lat_it0. Qed.
+Lemma it_step_2 x y z d : gen_lla_lat_it2 x y z d = lat_step (rr x y) (z / (1275627 / 200)) (gen_lla_lat_it1 x y z d).
+Proof. it_step_tac gen_lla_lat_it2 gen_lla_lat_it1. Qed.
+Lemma it_step_3 x y z d : gen_lla_lat_it3 x y z d = lat_step (rr x y) (z / (1275627 / 200)) (gen_lla_lat_it2 x y z d).
+Proof. it_step_tac gen_lla_lat_it3 gen_lla_lat_it2. Qed.
+Lemma it_step_4 x y z d : gen_lla_lat_it4 x y z d = lat_step (rr x y) (z / (1275627 / 200)) (gen_lla_lat_it3 x y z d).
+Proof. it_step_tac gen_lla_lat_it4 gen_lla_lat_it3. Qed.
+Lemma it_step_5 x y z d : gen_lla_lat_it5 x y z d = lat_step (rr x y) (z / (1275627 / 200)) (gen_lla_lat_it4 x y z d).
+Proof. it_step_tac gen_lla_lat_it5 gen_lla_lat_it4. Qed.
+Lemma it_step_6 x y z d : gen_lla_lat_it6 x y z d = lat_step (rr x y) (z / (1275627 / 200)) (gen_lla_lat_it5 x y z d).
+Proof. it_step_tac gen_lla_lat_it6 gen_lla_lat_it5. Qed.
+
+Ltac alt_tac a :=
+  unfold a, alt_of, Nc, rr, wgs84_A; cbv zeta; rewrite e2_const'; reflexivity.
+Lemma alt_1 x y z d : gen_lla_alt_p1 x y z d = alt_of (rr x y) (gen_lla_lat_it1 x y z d) (gen_lla_lat_it0 x y z d).
+Proof. alt_tac gen_lla_alt_p1. Qed.
+Lemma alt_2 x y z d : gen_lla_alt_p2 x y z d = alt_of (rr x y) (gen_lla_lat_it2 x y z d) (gen_lla_lat_it1 x y z d).
+Proof. alt_tac gen_lla_alt_p2. Qed.
+Lemma alt_3 x y z d : gen_lla_alt_p3 x y z d = alt_of (rr x y) (gen_lla_lat_it3 x y z d) (gen_lla_lat_it2 x y z d).
+Proof. alt_tac gen_lla_alt_p3. Qed.
+Lemma alt_4 x y z d : gen_lla_alt_p4 x y z d = alt_of (rr x y) (gen_lla_lat_it4 x y z d) (gen_lla_lat_it3 x y z d).
+Proof. alt_tac gen_lla_alt_p4. Qed.
+Lemma alt_5 x y z d : gen_lla_alt_p5 x y z d = alt_of (rr x y) (gen_lla_lat_it5 x y z d) (gen_lla_lat_it4 x y z d).
+Proof. alt_tac gen_lla_alt_p5. Qed.
+Lemma alt_6 x y z d : gen_lla_alt_p6 x y z d = alt_of (rr x y) (gen_lla_lat_it6 x y z d) (gen_lla_lat_it5 x y z d).
+Proof. alt_tac gen_lla_alt_p6. Qed.
+
+(* longitude: Greenwich angle + longitude is the azimuth of the position, modulo 2*pi *)
+Lemma lon_congr x y z d :
+  exists k : Z, deg2rad (gen_lla_lon x y z d) = atan2 y x - gen_gmst d + 2 * IZR k * PI.
+Proof.
+  unfold gen_lla_lon. cbv zeta. rewrite deg2rad_rad2deg.
+  replace (y / (1275627 / 200) * (1275627 / 200)) with y by field.
+  replace (x / (1275627 / 200) * (1275627 / 200)) with x by field.
+  match goal with |- context [pymod ?a ?m] => destruct (pymod_congr a m) as [k E]; rewrite E; clear E end.
+  unfold ite_lt, ite_le.
+  repeat match goal with |- context [Rlt_dec ?a ?b] => destruct (Rlt_dec a b) end;
+  repeat match goal with |- context [Rle_dec ?a ?b] => destruct (Rle_dec a b) end.
+  all: first [ exists k; ring | exists (k - 1)%Z; rewrite minus_IZR; ring
+             | exists (k + 1)%Z; rewrite plus_IZR; ring ].
+Qed.
+
+Lemma lon_direction x y z d : 0 < x * x + y * y ->
+  cos (gen_gmst d + deg2rad (gen_lla_lon x y z d)) = x / sqrt (x * x + y * y) /\
+  sin (gen_gmst d + deg2rad (gen_lla_lon x y z d)) = y / sqrt (x * x + y * y).
+Proof.
+  intros H. destruct (lon_congr x y z d) as [k E]. rewrite E.
+  replace (gen_gmst d + (atan2 y x - gen_gmst d + 2 * IZR k * PI)) with (atan2 y x + 2 * IZR k * PI) by ring.
+  rewrite cos_period_Z, sin_period_Z.
+  assert (Hnz : x <> 0 \/ y <> 0).
+  { destruct (Req_dec x 0) as [Hx|Hx]; [right|left; exact Hx]. intros Hy. subst. lra. }
+  destruct (sin_cos_atan2 y x Hnz) as [S C]. split; assumption.
+Qed.
+
+Definition roundtrip_ok (x y z d lat_deg alt : R) : Prop :=
+  let lam := deg2rad (gen_lla_lon x y z d) in
+  let phi := deg2rad lat_deg in
+  let s := wgs84_A / XKMPER in
+  let tol := wgs84_A * (2 / 1000000000000) in
+  Rabs (eci_x wgs84_A lam phi alt (gen_gmst d) - s * x) <= tol /\
+  Rabs (eci_y wgs84_A lam phi alt (gen_gmst d) - s * y) <= tol /\
+  Rabs (eci_z wgs84_A lam phi alt (gen_gmst d) - s * z) <= tol.
+
+Lemma roundtrip_generic x y z d lat lat2 :
+  0 < x * x + y * y ->
+  lat = lat_step (rr x y) (z / (1275627 / 200)) lat2 ->
+  Rabs (lat - lat2) < 1 / 10000000000 ->
+  roundtrip_ok x y z d (rad2deg lat) (alt_of (rr x y) lat lat2).
+Proof.
+  intros Hxy El Hexit. unfold roundtrip_ok. cbv zeta. rewrite deg2rad_rad2deg.
+  pose proof (rr_pos x y Hxy) as Hr.
+  subst lat.
+  pose proof (rho_close (rr x y) (z / (1275627 / 200)) lat2 Hr Hexit) as RC.
+  pose proof (z_close (rr x y) (z / (1275627 / 200)) lat2 Hr Hexit) as ZC.
+  destruct (lon_direction x y z d Hxy) as [C S].
+  set (lat := lat_step (rr x y) (z / (1275627 / 200)) lat2) in *.
+  set (alt := alt_of (rr x y) lat lat2) in *.
+  set (R := sqrt (x * x + y * y)) in *.
+  assert (HR : 0 < R) by (apply sqrt_lt_R0; exact Hxy).
+  assert (HRR : R * R = x * x + y * y) by (apply sqrt_sqrt; lra).
+  assert (EA : wgs84_A * rr x y = wgs84_A / XKMPER * R) by (rewrite rr_scaled; fold R; unfold XKMPER; field).
+  rewrite EA in RC.
+  assert (Hx1 : Rabs (x / R) <= 1).
+  { apply Rabs_le. split.
+    - apply Rmult_le_reg_r with R; [lra|]. unfold Rdiv. rewrite Rmult_assoc, Rinv_l by lra. nra.
+    - apply Rmult_le_reg_r with R; [lra|]. unfold Rdiv. rewrite Rmult_assoc, Rinv_l by lra. nra. }
+  assert (Hy1 : Rabs (y / R) <= 1).
+  { apply Rabs_le. split.
+    - apply Rmult_le_reg_r with R; [lra|]. unfold Rdiv. rewrite Rmult_assoc, Rinv_l by lra. nra.
+    - apply Rmult_le_reg_r with R; [lra|]. unfold Rdiv. rewrite Rmult_assoc, Rinv_l by lra. nra. }
+  assert (HA : 0 < wgs84_A) by (unfold wgs84_A; lra).
+  split; [|split].
+  - unfold eci_x. rewrite C.
+    replace (geodetic_rho wgs84_A lat alt * (x / R) - wgs84_A / XKMPER * x)
+      with ((geodetic_rho wgs84_A lat alt - wgs84_A / XKMPER * R) * (x / R)) by (unfold XKMPER; field; lra).
+    rewrite Rabs_mult.
+    pose proof (Rabs_pos (geodetic_rho wgs84_A lat alt - wgs84_A / XKMPER * R)).
+    pose proof (Rabs_pos (x / R)). nra.
+  - unfold eci_y. rewrite S.
+    replace (geodetic_rho wgs84_A lat alt * (y / R) - wgs84_A / XKMPER * y)
+      with ((geodetic_rho wgs84_A lat alt - wgs84_A / XKMPER * R) * (y / R)) by (unfold XKMPER; field; lra).
+    rewrite Rabs_mult.
+    pose proof (Rabs_pos (geodetic_rho wgs84_A lat alt - wgs84_A / XKMPER * R)).
+    pose proof (Rabs_pos (y / R)). nra.
+  - unfold eci_z.
+    replace (wgs84_A / XKMPER * z) with (wgs84_A * (z / (1275627 / 200))) by (unfold XKMPER; field).
+    exact ZC.
+Qed.
+
+Ltac path_tac itE altE :=
+  intros Hxy Hexit;
+  rewrite altE; rewrite itE at 1;
+  first [ apply roundtrip_generic; [exact Hxy|reflexivity|] | idtac ].
+
+Lemma roundtrip_p1 x y z d : 0 < x * x + y * y -> gen_lla_exit_p1 x y z d ->
+  roundtrip_ok x y z d (gen_lla_lat_p1 x y z d) (gen_lla_alt_p1 x y z d).
+Proof.
+  intros Hxy Hexit. unfold gen_lla_lat_p1. rewrite alt_1.
+  apply roundtrip_generic; [exact Hxy|apply it_step_1|exact Hexit].
+Qed.
+Lemma roundtrip_p2 x y z d : 0 < x * x + y * y -> gen_lla_exit_p2 x y z d ->
+  roundtrip_ok x y z d (gen_lla_lat_p2 x y z d) (gen_lla_alt_p2 x y z d).
+Proof.
+  intros Hxy Hexit. unfold gen_lla_lat_p2. rewrite alt_2.
+  apply roundtrip_generic; [exact Hxy|apply it_step_2|apply Hexit].
+Qed.
+Lemma roundtrip_p3 x y z d : 0 < x * x + y * y -> gen_lla_exit_p3 x y z d ->
+  roundtrip_ok x y z d (gen_lla_lat_p3 x y z d) (gen_lla_alt_p3 x y z d).
+Proof.
+  intros Hxy Hexit. unfold gen_lla_lat_p3. rewrite alt_3.
+  apply roundtrip_generic; [exact Hxy|apply it_step_3|apply Hexit].
+Qed.
+Lemma roundtrip_p4 x y z d : 0 < x * x + y * y -> gen_lla_exit_p4 x y z d ->
+  roundtrip_ok x y z d (gen_lla_lat_p4 x y z d) (gen_lla_alt_p4 x y z d).
+Proof.
+  intros Hxy Hexit. unfold gen_lla_lat_p4. rewrite alt_4.
+  apply roundtrip_generic; [exact Hxy|apply it_step_4|apply Hexit].
+Qed.
+Lemma roundtrip_p5 x y z d : 0 < x * x + y * y -> gen_lla_exit_p5 x y z d ->
+  roundtrip_ok x y z d (gen_lla_lat_p5 x y z d) (gen_lla_alt_p5 x y z d).
+Proof.
+  intros Hxy Hexit. unfold gen_lla_lat_p5. rewrite alt_5.
+  apply roundtrip_generic; [exact Hxy|apply it_step_5|apply Hexit].
+Qed.
+Lemma roundtrip_p6 x y z d : 0 < x * x + y * y -> gen_lla_exit_p6 x y z d ->
+  roundtrip_ok x y z d (gen_lla_lat_p6 x y z d) (gen_lla_alt_p6 x y z d).
+Proof.
+  intros Hxy Hexit. unfold gen_lla_lat_p6. rewrite alt_6.
+  apply roundtrip_generic; [exact Hxy|apply it_step_6|apply Hexit].
+Qed.
+
+(* the scale factor: the code normalises by XKMPER but scales the height by A *)
+Lemma scale_factor : 0 < wgs84_A / XKMPER - 1 < 32 / 100000000.
+Proof. unfold wgs84_A, XKMPER. split; lra. Qed.
